@@ -1325,12 +1325,13 @@ class MemberFlow:
     Functions are objects with `.node` (definition) and `.params`; `callee(call)` resolves a call to one of them or None.
     `cond_pred(flow, cond, f)` may narrow which conditions count (default: the condition derives from the sources)."""
 
-    def __init__(self, fns, sources, callee, cond_pred=None):
+    def __init__(self, fns, sources, callee, cond_pred=None, seed_vars=()):
         self.fns = [f for f in fns if cir.body(f.node) is not None]
         self.sources = set(sources)
         self.callee = callee
         self.cond_pred = cond_pred
-        self.tl = {id(f): set() for f in self.fns}
+        # seed_vars: ids of variables (file-level / function-static / class-static) that count as sources as well
+        self.tl = {id(f): set(seed_vars) for f in self.fns}
         self.ret = {id(f): False for f in self.fns}
         self.ctl_in = {id(f): False for f in self.fns}
         self.marked = {id(f): frozenset() for f in self.fns}
